@@ -152,7 +152,7 @@ class Engine(EngineBase, ExprMixin, StmtMixin, CallMixin, PreludeMixin, FoldMixi
         sf = self.spec_frame(mod, c.qual, cname, entry_env, old=({}, entry_env))
         entry = St((), {}, {})
         for m in c.modifies:
-            if m in ('alloc', 'clock', 'fs'):
+            if m in ('alloc', 'clock', 'fs', 'zk'):
                 continue
             if isinstance(m, tuple):
                 cf, predtext = m
@@ -194,6 +194,10 @@ class Engine(EngineBase, ExprMixin, StmtMixin, CallMixin, PreludeMixin, FoldMixi
                 if 'fs' not in c.modifies:
                     self.oblige(st, '%s#frame[fs]' % c.qual, False, {'text': "changes the file system: add 'fs' to modifies"})
                 continue
+            if key[0].startswith('$zk.'):
+                if 'zk' not in c.modifies:
+                    self.oblige(st, '%s#frame[zk]' % c.qual, False, {'text': "changes the ZooKeeper store: add 'zk' to modifies"})
+                continue
             if key[0] == '$clock':
                 if 'clock' not in c.modifies:
                     self.oblige(st, '%s#frame[clock]' % c.qual, False, {'text': "reads the clock: add 'clock' to modifies"})
@@ -205,7 +209,7 @@ class Engine(EngineBase, ExprMixin, StmtMixin, CallMixin, PreludeMixin, FoldMixi
         if getattr(self, 'frame_ctx', None) is None:
             return
         for key in sorted(keys):
-            if key == ALIVE or key[0] == '$clock' or key[0].startswith('$fs.'):
+            if key == ALIVE or key[0] == '$clock' or key[0].startswith('$fs.') or key[0].startswith('$zk.'):
                 continue
             arr = self.H.get(st.heap, key, None)
             f = self.frame_formula(st, key, arr)
